@@ -364,14 +364,14 @@ V_C11(S, e, T, aux) ==
                           "C11.charge_increase")
                  ELSE {})
            \cup (IF e.tx.m = "open_position" /\ Held(p) /\ f # 0 /\ Len(e.swaps) >= 1 /\ e.swaps[1].type = "output"
-                 THEN \* reversal: the closed leg must settle the funding owed on it; the trader's
-                      \* total outlay differs from the zero-funding outlay by exactly f
+                    /\ ~S.eng.cfg.native
+                 THEN \* reversal: the closed leg settles the funding owed on it, so the trader's wallet
+                      \* changes by (old equity) - (margin of the new position) - fees
                       LET pnl == ClosePnl(p, e.swaps[1].quote)
                           equity == p.margin + pnl - f
                           newmargin == IF Held(p2) THEN p2.margin ELSE 0
                           fees == Sent(e, t, "ifund") + Sent(e, t, "fpool")
-                          net == (T.bal[t] - S.bal[t])   \* wallet change
-                      IN Tag(net = equity - newmargin - (IF S.eng.cfg.native THEN 0 ELSE fees) - (IF S.eng.cfg.native THEN fees ELSE 0), "C11.charge_reversal")
+                      IN Tag(T.bal[t] - S.bal[t] = equity - newmargin - fees, "C11.charge_reversal")
                  ELSE {})
    ELSE {})
 A_C11(S, e, T, aux) ==
@@ -575,8 +575,7 @@ V_C18(S, e, T, aux) ==
   (IF e.kind = "query" /\ IsVammName(e.tx.c) /\ e.tx.c \in Vs(S) /\ e.tx.m = "twap_price" /\ e.res.ok
    THEN LET vm == S.vamm[e.tx.c]
             ps == WindowPrices(vm, S.blk.t, e.tx.a.interval)
-        IN Tag(\A p \in ps : ~Bad(p) => TRUE, "C18.x")
-           \cup Tag((\E p \in ps : p <= e.res.val) /\ (\E p \in ps : p >= e.res.val), "C18.bounds")
+        IN Tag((\E p \in ps : p <= e.res.val) /\ (\E p \in ps : p >= e.res.val), "C18.bounds")
            \cup Tag(Cardinality({SnapPrice(vm.cfg.D, vm.snaps[i]) : i \in 1..Len(vm.snaps)}) # 1
                     \/ e.res.val = Spot(vm), "C18.constant")
    ELSE {})
